@@ -247,7 +247,7 @@ R 1
 SEC_OPTIONAL = {
     "constraints-ifndef": "[ constraints ]\n#ifndef FLEXIBLE\n1 3 1 0.45\n#endif\n",
     "angles-two-functions": "[ angles ]\n1 2 3 2 120 50\n2 3 4 10 100 20\n",
-    "dihedrals-multi-and-improper": "[ dihedrals ]\n1 2 3 4 9 0 1.5 1\n1 2 3 4 9 180 2.5 2\n2 1 3 4 2 35 100\n",
+    "dihedrals-multi-and-improper": "[ dihedrals ]\n1 2 3 4 9 0 1.5 1\n1 2 3 4 9 180 2.5 2\n1 2 3 4 9 60 3.5 3\n1 2 3 4 9 90 4.5 4\n2 1 3 4 2 35 100\n",
     "pairs": "[ pairs ]\n1 4 1\n",
     "exclusions-multi": "[ exclusions ]\n1 3 4\n2 4\n",
     "virtual_sites2": "[ virtual_sites2 ]\n5 1 2 1 0.5\n",
